@@ -159,7 +159,8 @@ def batchLoopRun {α β : Type} (size : Nat) (hs : 0 < size) (exportFn : List α
 termination_by chunks.length - i
 decreasing_by omega
 
-/-- `(*BatchExporter).Export`; `none` for batch size 0 (the Go loop does not terminate) -/
+/-- `(*BatchExporter).Export`; `none` for batch size 0 = the size error (see `batchExport`; all `int` sizes:
+`batchExportRunInt` in `Model/ExportIO.lean`) -/
 def batchExportRun {α β : Type} (size : Nat) (exportFn : List α → Option β) (cb : Batch α → β → Bool)
     (chunks : List α) : Option (List (Batch α × β) × BatchResult) :=
   if hs : 0 < size then some (batchLoopRun size hs exportFn cb chunks 0) else none
